@@ -30,6 +30,7 @@ func main() {
 	commands["bridgeexit"] = cmdBridgeExit
 	commands["emit"] = cmdEmit
 	commands["acthelper"] = cmdActHelper
+	commands["cert"] = cmdCert
 	if len(os.Args) < 2 {
 		fmt.Fprintln(os.Stderr, "usage: vdriver <command> [flags]")
 		os.Exit(2)
